@@ -498,9 +498,76 @@ def part_with_js(sh, res):
     finally:
         shutil.rmtree(scratch, ignore_errors=True)
 
+JOIN_NAMES = ['x', 'Y', 'x7', 'id', 'x y', ' x', '"', "'", 'x,', '\u00e9', '[', ']', '=', 'on', 'b', 'a1']
+
+
+def join_on_cases(lo, hi):
+    """JOIN ... ON with every spelling of the two key columns, both operand orders, both key positions, INNER and LEFT"""
+    arows = [['k1', 'v1'], ['k2', 'v2'], ['k3', 'v3']]
+    brows = [['k2', 'p'], ['k1', 'q']]
+    for i, n1 in enumerate(JOIN_NAMES):
+        if not (lo <= i < hi):
+            continue
+        for n2 in JOIN_NAMES:
+            for ca in (0, 1):
+                for cb in (0, 1):
+                    A = [r if ca == 0 else r[::-1] for r in arows]
+                    B = [r if cb == 0 else r[::-1] for r in brows]
+                    ha = [n1, n1 + 'z'] if ca == 0 else [n1 + 'z', n1]
+                    hb = [n2, n2 + 'z'] if cb == 0 else [n2 + 'z', n2]
+                    sa = [('num', 'a%d' % (ca + 1)), ('dq', 'a[%s]' % refql.lit_text(n1, '"')), ('sq', 'a[%s]' % refql.lit_text(n1, "'"))] + ([('attr', 'a.' + n1)] if IDENT.match(n1) else [])
+                    sb = [('num', 'b%d' % (cb + 1)), ('dq', 'b[%s]' % refql.lit_text(n2, '"')), ('sq', 'b[%s]' % refql.lit_text(n2, "'"))] + ([('attr', 'b.' + n2)] if IDENT.match(n2) else [])
+                    for la, ta in sa:
+                        for lb, tb in sb:
+                            for order in ('ab', 'ba'):
+                                for kind in ('join', 'left join'):
+                                    cond = '%s == %s' % ((ta, tb) if order == 'ab' else (tb, ta))
+                                    text = 'select a%d, b%d %s b on %s' % (ca + 1, 2 - cb, kind, cond)
+                                    exp = [['k1', 'q'], ['k2', 'p']] + ([['k3', None]] if kind == 'left join' else [])
+                                    yield {'query': text, 'A': A, 'B': B, 'ha': ha, 'hb': hb, 'exp': exp, 'label': '%s_%s_%s' % (la, lb, order)}
+
+
+def part_join_on(sh, res):
+    for c in join_on_cases(sh['lo'], sh['hi']):
+        if sh.get('js'):
+            continue
+        got = drive.run_py(c['query'], qcheck.copy_table(c['A']), qcheck.copy_table(c['B']), c['ha'], c['hb'])
+        res.evaluations += 1
+        res.traces += 1
+        res.states += 1
+        res.transitions += 1
+        if got['error'] is not None or got['records'] != c['exp']:
+            res.violation('join-key-name-binds-wrong-column', {'backend': 'table-join', 'header': c['ha'], 'header_b': c['hb'], 'query': c['query'], 'A': c['A'], 'B': c['B']}, c['exp'], {'records': got['records'], 'error': got['error']})
+        else:
+            res.feat('join_on_' + c['label'].split('_')[2])
+            res.feat('join_on_spelling_' + c['label'].rsplit('_', 1)[0])
+            res.nontrivial += 1
+    if sh.get('js'):
+        from vf import js
+        if not js.available():
+            res.feat('js_skipped')
+            return
+        cases = list(join_on_cases(sh['lo'], sh['hi']))
+        outs = js.run_batch([{'op': 'query', 'query': c['query'], 'input': c['A'], 'join': c['B'], 'input_names': c['ha'], 'join_names': c['hb']} for c in cases])
+        for c, o in zip(cases, outs):
+            got = qcheck.js_got(o)
+            res.evaluations += 1
+            res.traces += 1
+            res.states += 1
+            res.transitions += 1
+            if got['error'] is not None or got['records'] != c['exp']:
+                res.violation('js:join-key-name-binds-wrong-column', {'backend': 'js-table-join', 'header': c['ha'], 'header_b': c['hb'], 'query': c['query'], 'A': c['A'], 'B': c['B']}, c['exp'], {'records': got['records'], 'error': got['error']})
+            else:
+                res.feat('js_join_on_' + c['label'].split('_')[2])
+                res.nontrivial += 1
+    res.sample({'join_on': 'select aK, bM [left] join b on <a-spelling> == <b-spelling> (both orders)', 'names': JOIN_NAMES[sh['lo']:sh['hi']]})
+
 
 def run_shard(sh):
     res = core.Result()
+    if sh['part'] == 'join_on':
+        part_join_on(sh, res)
+        return res
     if sh['part'] == 'with_js':
         part_with_js(sh, res)
         return res
@@ -519,16 +586,17 @@ def main(tier, seed):
     shards += [{'part': 'table_js', 'lo': lo, 'hi': hi} for lo, hi in core.chunks(len(names), 32)]
     npairs = len(subset_pairs(T))
     shards += [{'part': 'backends', 'full': T, 'lo': lo, 'hi': hi} for lo, hi in core.chunks(npairs, 32)]
+    shards += [{'part': 'join_on', 'lo': i, 'hi': i + 1, 'js': j} for i in range(len(JOIN_NAMES)) for j in (False, True)]
     shards += [{'part': 'positions', 'ntriple': 12 if T else 8}, {'part': 'hnd'}, {'part': 'with'}, {'part': 'with_js'}]
     res = core.run_shards('vf.checks.c09', shards)
     return core.finish(PID, tier, seed, res, t0,
         rule='all names of length 1-2 over 16 atoms; every ordered pair of distinct names as a 2-column header through query_table with a["n"], a[\'n\'] and a.n; a subset of pairs (all single-atom pairs, each 2-atom name against 3 decoys and its confusable partners) through '
-             'query_csv (quoted_rfc files, also b["n"] through a JOIN file), pandas and sqlite; names in WHERE / UPDATE / EXCEPT / ORDER BY; bare names in direct mode; header triples; `select NR, a1` on all 4 backends; WITH modifier x caller flag x 6 queries (differential); '
+             'query_csv (quoted_rfc files, also b["n"] through a JOIN file), pandas and sqlite; names in WHERE / UPDATE / EXCEPT / ORDER BY; bare names in direct mode; header triples; `select NR, a1` on all 4 backends; WITH modifier x caller flag x 6 queries (differential); JOIN ON over 16 key names x 16 x key positions x every spelling pair (aN, a.n, a["n"], a[\'n\']) x both operand orders x INNER/LEFT, Python and rbql-js; '
              'non-trivial = the name is not identifier-like / the modifier contradicts the caller flag',
         assumptions=['names containing an a.ident / b.ident token are excluded (the quantifier)', 'the name inside a["..."] is written with the canonical escapes (backslash, quote, \\n, \\r, \\t)'],
         extra={'names': len(names), 'backend_pairs': npairs},
         min_features={'table_dq': 50000, 'table_sq': 50000, 'table_attr': 500, 'csv_dq': 300, 'pandas_dq': 300, 'sqlite_dq': 300, 'csv_join': 300, 'direct_mode_bare': 50, 'triples': 100, 'header_not_data': 20,
-                      'with_overrides_opposite_flag': 50, 'variable_like_names': 300, 'fstring_names': 40, 'js_table_dq': 50000, 'js_table_sq': 50000, 'js_with_override': 100, 'position_update': 100})
+                      'with_overrides_opposite_flag': 50, 'variable_like_names': 300, 'fstring_names': 40, 'js_table_dq': 50000, 'js_table_sq': 50000, 'js_with_override': 100, 'position_update': 100, 'join_on_ab': 5000, 'join_on_ba': 5000, 'js_join_on_ba': 5000, 'join_on_spelling_dq_sq': 1000})
 
 
 def replay(rep):
